@@ -148,3 +148,12 @@ func VerifSortedSigs(n int) {
 	verifapi.Classify("C05/sorted-listing-depends-on-map-iteration-order/" + []string{"GetSortedTSignatures", "GetSortedTSignaturesByClass"}[which] + "/" + tie)
 	verifapi.Assert(same, "C05-sorted")
 }
+
+// VerifObjKindT: i in 0..2 -> NilClass, an instance of user class VA, an instance of VB.
+func VerifObjKindT(i int) *T {
+	return &T{
+		tType:       verifapi.PickInt(i, NIL, OBJECT, OBJECT),
+		objectClass: verifapi.Pick(i, "NilClass", "Va", "Vb"),
+		val:         verifapi.Pick(i, "nil", "Va", "Vb"),
+	}
+}
